@@ -13,7 +13,9 @@ EXPLANATION = (
     "call follows the completion of build_extension.run() and precedes the import, the scratch directory is removed on every exit; "
     "(R20.4) the published name is a digest of the generated source (shared with C13); (R20.5) MODDIR is created and put on "
     "sys.path before any import, and a failed import falls through to a rebuild.  These are the necessary conditions for 'no "
-    "partial file is ever visible under an importable name; no two builders share scratch files'.")
+    "partial file is ever visible under an importable name; no two builders share scratch files'.  R20.3 also requires the "
+    "publication to be unconditional once the build succeeded (the routine runs only after importing the cached entry failed, so "
+    "an existing unloadable entry must be replaced).")
 DOES_NOT_DECIDE = ("what the dynamic loader does with a pre-existing corrupt file, kill timing, compiler/linker atomicity inside the scratch "
                    "directory, file-system semantics of rename")
 TECHNIQUE = "custom AST typestate: TEMP / PUBLISHED path provenance, classification of writers as in-place or atomic, statement ordering"
